@@ -14,7 +14,7 @@ from .world import seq_eq
 
 META = dict(assumptions=["reference encoders in props/refs.py (written from MS-GKDI 2.2 and the NDR64 transfer syntax) are the oracle; the pointer referent value 0x00020000 is a convention shared with the code"])
 P = "C11"
-NAMES = ["", "a", "domain.test", "dépôt.中文", "x\U0001F600y"]
+NAMES = ["", "a", "domain.test", "dépôt.中文", "x\U0001F600y", "\ufeffab.test", "\ufffe", "a\ufeff"]  # incl. names that begin with / contain a byte-order mark
 U32 = (1 << 32) - 1
 
 
@@ -30,13 +30,14 @@ def _lens(tier, small=False):
 def _gke_params(tier):
     out = []
     lens = _lens(tier)
-    for i, n in enumerate(lens):
+    for i in range(max(len(lens), len(NAMES))):
+        n = lens[i % len(lens)]
         out.append(dict(n1=n, n2=lens[(i + 1) % len(lens)], n3=lens[(i + 2) % len(lens)], n4=lens[(i + 3) % len(lens)], dom=NAMES[i % len(NAMES)], forest=NAMES[(i + 2) % len(NAMES)]))
     return out
 
 
 @harness(P, per_job=True, params=_gke_params, bounds="group key envelope: version, flags, L0, L1, L2, private/public key length symbolic in [0,2^32); root key id symbolic; kdf/secret parameters, L1 key, L2 key of "
-         "listed lengths (0..17 incl. odd, +63..65 thorough) with symbolic content; domain/forest names from {empty, ASCII, BMP, non-BMP}",
+         "listed lengths (0..17 incl. odd, +63..65 thorough) with symbolic content; domain/forest names from {empty, ASCII, BMP, non-BMP, beginning with U+FEFF / U+FFFE, containing U+FEFF}",
          outside="byte-field lengths not listed; other names", must_reach=("gke: bytes equal the MS-GKDI 2.2.4 reference", "gke: decode(encode(x)) == x"))
 def gke(c, n1, n2, n3, n4, dom, forest):
     ints = {k: c.int(k, 0, U32) for k in ("version", "flags", "l0", "l1", "l2", "priv", "pub")}
@@ -53,7 +54,7 @@ def gke(c, n1, n2, n3, n4, dom, forest):
     return len(b)
 
 
-@harness(P, per_job=True, params=lambda tier: [dict(n=n, dom=NAMES[i % 5], forest=NAMES[(i + 3) % 5]) for i, n in enumerate(_lens(tier) + [32, 36])],
+@harness(P, per_job=True, params=lambda tier: [dict(n=n, dom=NAMES[i % len(NAMES)], forest=NAMES[(i + 3) % len(NAMES)]) for i, n in enumerate(_lens(tier) + [32, 36])],
          bounds="key identifier: all integer fields symbolic in [0,2^32), root key id symbolic, key_info of listed lengths with symbolic content, listed names",
          must_reach=("keyid: bytes equal reference", "keyid: decode(encode(x)) == x"))
 def keyid(c, n, dom, forest):
@@ -68,7 +69,7 @@ def keyid(c, n, dom, forest):
     return len(b)
 
 
-@harness(P, params=[dict(name=n) for n in ("SHA1", "SHA256", "SHA384", "SHA512", "", "X")], bounds="KDF parameters for the 4 hash names and two other names", must_reach=("kdf parameters",))
+@harness(P, params=[dict(name=n) for n in ("SHA1", "SHA256", "SHA384", "SHA512", "", "X", "\ufeffSHA1", "\ufffeX")], bounds="KDF parameters for the 4 hash names and two other names", must_reach=("kdf parameters",))
 def kdfpar(c, name):
     x = _gkdi.KDFParameters(name)
     b = c.call(x.pack)
